@@ -693,7 +693,8 @@ func (t *tree) parsePlural(tok item) ast.Node {
 	}
 
 	// plural and switch nodes have the same structure.
-	// BUG: the location quoted the erorr messages will not be correct.
+	// (what is found wrong with the finished plural is reported at the tag in
+	// question, not at the token the parser has reached by then.)
 	var sw = t.parseSwitch(tok, itemPluralEnd).(*ast.SwitchNode)
 	var defaultNode ast.ParentNode
 	var cases []*ast.MsgPluralCaseNode
@@ -703,13 +704,13 @@ func (t *tree) parsePlural(tok item) ast.Node {
 		} else {
 			var intNode, ok = node.Values[0].(*ast.IntNode)
 			if !ok || len(node.Values) > 1 {
-				t.errorf("plural case must be a single integer, got %v", node.Values)
+				t.errorfAt(node.Pos, "plural case must be a single integer, got %v", node.Values)
 			}
 			cases = append(cases, &ast.MsgPluralCaseNode{node.Pos, int(intNode.Value), node.Body.(ast.ParentNode)})
 		}
 	}
 	if defaultNode == nil {
-		t.errorf("{default} case required")
+		t.errorfAt(tok.pos, "{default} case required")
 	}
 	return &ast.MsgPluralNode{sw.Pos, "", sw.Value, cases, defaultNode}
 }
@@ -1339,7 +1340,17 @@ func (t *tree) unexpected(token item, context string) {
 	if token.typ == itemError {
 		t.errorfAt(token.pos, "lexical error: %v", token)
 	}
-	t.errorfAt(token.pos, "unexpected %v in %s", token, context)
+	// the position of an item is its end; an item of several lines (text, a
+	// string with line breaks) is reported where its first character stands.
+	var pos = token.pos
+	if strings.ContainsAny(token.val, "\n\r") && int(pos) >= len(token.val) && !t.lex.fixed {
+		var blank = len(token.val) - len(strings.TrimLeft(token.val, " \t\r\n"))
+		if blank == len(token.val) {
+			blank = 0
+		}
+		pos -= ast.Pos(len(token.val) - blank - 1)
+	}
+	t.errorfAt(pos, "unexpected %v in %s", token, context)
 }
 
 // errorf formats the error and terminates processing.
